@@ -437,6 +437,39 @@ def insert(doc, pos, piece_name, tag="zz_bad"):
     return d, ("op", key)
 
 
+def _parent_renamed_by_removed_child(doc, owners, bad_owners):
+    """True iff every changed class in `owners` is a $ref allOf member of a composed schema that (a) depends on a bad piece's owner and
+    (b) gives it a sibling property whose snake_case form equals one of its own property names while the spellings differ"""
+    from openapi_python_client import utils
+    S = (doc.get("components") or {}).get("schemas") or {}
+    bad = {o[1] for o in bad_owners if o and o[0] == "schema"}
+    if not bad:
+        return False
+    def props(sch, seen=()):
+        out = set((sch.get("properties") or {}))
+        for m in sch.get("allOf") or []:
+            if "$ref" in m:
+                n = m["$ref"].rsplit("/", 1)[-1]
+                if n in S and n not in seen:
+                    out |= props(S[n], seen + (n,))
+            else:
+                out |= set((m.get("properties") or {}))
+        return out
+    for o in owners:
+        ok = False
+        for cname, c in S.items():
+            members = [m["$ref"].rsplit("/", 1)[-1] for m in (c.get("allOf") or []) if "$ref" in m]
+            if o not in members or not (set(members) & bad or cname in bad):
+                continue
+            mine = props(S.get(o, {}))
+            others = props(c) - mine
+            if any(utils.snake_case(a) == utils.snake_case(b) and a != b for a in mine for b in others | mine):
+                ok = True
+        if not ok:
+            return False
+    return True
+
+
 def names_schema(text, name):
     return re.search(re.escape(AG.PREFIX + name) + r"(?![A-Za-z0-9_])", text) is not None
 
@@ -822,6 +855,12 @@ def stage_c(run, tier, rng, replay_cases=None):
                 if hit and run.known_finding("union_dependency_unrecorded",
                         f"document '{r['label']}' + {r['piece']} at {r['pos']}: survivor {hit[0]} reaches removed {hit[1]} through a union member edge "
                         f"(no roots recorded); {p.get('module') or p.get('cls')}: {json.dumps(p.get('exc'))[:160]}"):
+                    continue
+            if p["kind"] == "changed" and p.get("owners") and r.get("doc") and _parent_renamed_by_removed_child(r["doc"], p["owners"], r.get("owner") or []):
+                # listed C15/C09 defect seen from C08's side: _resolve_naming_conflict renames the SHARED property objects of an allOf parent in
+                # place, so the parent's attribute names depend on whether the composed child (removed here because of the bad piece) exists
+                if run.known_finding("allof_parent_attr_renamed",
+                        f"document '{r['label']}' + {r['inserts']}: {p['module']} (class {p['owners']}) changes because the child composing it with a snake-case twin property is removed"):
                     continue
             run.violation("oracle", payload)
     run.extra["stageC"] = {"base_documents": len(base), "cases": len([r for r in results if not r["skipped"]]),
